@@ -437,6 +437,13 @@ class Check:
             rc, out = print_assumptions(self.prop)
             if rc != 0:
                 relevant = [f"Props/{self.prop}.v"]
+            for f in extra_files:
+                if f.startswith("Props/") and rc == 0:
+                    rc2, out2 = print_assumptions(f[len("Props/"):-2])
+                    out += "\n" + out2
+                    if rc2 != 0:
+                        rc = rc2
+                        relevant = [f]
         closed, axioms = parse_assumptions(out)
         self.coverage["print_assumptions"] = {"closed_theorems": closed, "axioms": axioms}
         self.coverage["unrelated_build_failures"] = [f for f in b.get("failed_files", []) if f not in files]
